@@ -19,9 +19,33 @@ enum Edge {
     AssignInCalledFn,
     OpAssignInCalledFn,
     BlobField,
+    // the read wrapped in each expression / statement form the dependency analysis has a case for
+    InThen,
+    InElse,
+    InCondition,
+    InCaseScrutinee,
+    InCaseArm,
+    InCaseElse,
+    InTuple,
+    InList,
+    InCallArgument,
+    InUnary,
+    InAndRhs,
+    InCalledFnElseBranch,
+    InCalledFnLoop,
+    InCalledFnNestedCall,
+    ThroughFunctionAlias,
+    InVariantPayload,
+    InIndex,
+    InLambdaCalledAtOnce,
 }
 
 const KINDS: [Edge; 6] = [Edge::Read, Edge::ReadInCalledFn, Edge::ReadInStoredFn, Edge::AssignInCalledFn, Edge::OpAssignInCalledFn, Edge::BlobField];
+const WRAPPED: [Edge; 18] = [
+    Edge::InThen, Edge::InElse, Edge::InCondition, Edge::InCaseScrutinee, Edge::InCaseArm, Edge::InCaseElse, Edge::InTuple, Edge::InList, Edge::InCallArgument,
+    Edge::InUnary, Edge::InAndRhs, Edge::InCalledFnElseBranch, Edge::InCalledFnLoop, Edge::InCalledFnNestedCall, Edge::ThroughFunctionAlias, Edge::InVariantPayload,
+    Edge::InIndex, Edge::InLambdaCalledAtOnce,
+];
 
 fn g(i: usize) -> String {
     format!("g{}", i)
@@ -37,6 +61,9 @@ struct Built {
 fn build(n: usize, edges: &[(usize, usize, Edge)]) -> Built {
     let mut helpers = Vec::new();
     let mut main = vec![Top::Blob { name: "P".into(), fields: vec![("x".into(), Ty::Int)] }];
+    if edges.iter().any(|e| WRAPPED.contains(&e.2)) {
+        helpers.push(Top::Enum { name: "V".into(), variants: vec![("A".into(), Some(Ty::Int)), ("B".into(), None)] });
+    }
     for i in 0..n {
         let mut init = int(i as i64 + 1);
         for (a, b, k) in edges.iter().filter(|e| e.0 == i) {
@@ -62,6 +89,50 @@ fn build(n: usize, edges: &[(usize, usize, Edge)]) -> Built {
                     callv(&name, vec![])
                 }
                 Edge::BlobField => field(Expr::Blob("P".into(), vec![("x".into(), var(&g(j)))]), "x"),
+                Edge::InThen => if_e(Expr::Bool(true), vec![Stmt::Expr(var(&g(j)))], Some(vec![Stmt::Expr(int(0))])),
+                Edge::InElse => if_e(Expr::Bool(false), vec![Stmt::Expr(int(0))], Some(vec![Stmt::Expr(var(&g(j)))])),
+                Edge::InCondition => if_e(bin(BinOp::Gt, var(&g(j)), int(-5)), vec![Stmt::Expr(int(20))], Some(vec![Stmt::Expr(int(30))])),
+                Edge::InCaseScrutinee => Expr::Case(Box::new(Expr::Variant("V".into(), "A".into(), Some(Box::new(var(&g(j)))))), vec![CaseArm { variant: "A".into(), bind: Some("q".into()), body: vec![Stmt::Expr(var("q"))] }], Some(vec![Stmt::Expr(int(0))])),
+                Edge::InCaseArm => Expr::Case(Box::new(Expr::Variant("V".into(), "A".into(), Some(Box::new(int(1))))), vec![CaseArm { variant: "A".into(), bind: Some("q".into()), body: vec![Stmt::Expr(bin(BinOp::Add, var("q"), var(&g(j))))] }], Some(vec![Stmt::Expr(int(0))])),
+                Edge::InCaseElse => Expr::Case(Box::new(Expr::Variant("V".into(), "B".into(), None)), vec![CaseArm { variant: "A".into(), bind: Some("q".into()), body: vec![Stmt::Expr(var("q"))] }], Some(vec![Stmt::Expr(var(&g(j)))])),
+                Edge::InTuple => Expr::Index(Box::new(Expr::Tuple(vec![int(0), var(&g(j))])), 1),
+                Edge::InList => {
+                    helpers.push(top_fn(&format!("len1{}{}", i, j), vec![("l", None)], RetAnn::Ty(Ty::Int), vec![Stmt::Expr(int(40))]));
+                    callv(&format!("len1{}{}", i, j), vec![Expr::List(vec![var(&g(j))])])
+                }
+                Edge::InCallArgument => {
+                    helpers.push(top_fn(&format!("idf{}{}", i, j), vec![("q", Some(Ty::Int))], RetAnn::Ty(Ty::Int), vec![Stmt::Expr(var("q"))]));
+                    callv(&format!("idf{}{}", i, j), vec![var(&g(j))])
+                }
+                Edge::InUnary => un(UnOp::Neg, var(&g(j))),
+                Edge::InAndRhs => if_e(bin(BinOp::And, Expr::Bool(true), bin(BinOp::Gt, var(&g(j)), int(-5))), vec![Stmt::Expr(int(50))], Some(vec![Stmt::Expr(int(60))])),
+                Edge::InCalledFnElseBranch => {
+                    let name = format!("e{}{}", i, j);
+                    helpers.push(top_fn(&name, vec![], RetAnn::Ty(Ty::Int), vec![Stmt::Expr(if_e(Expr::Bool(false), vec![Stmt::Expr(int(0))], Some(vec![Stmt::Expr(var(&g(j)))])))]));
+                    callv(&name, vec![])
+                }
+                Edge::InCalledFnLoop => {
+                    let name = format!("l{}{}", i, j);
+                    helpers.push(top_fn(&name, vec![], RetAnn::Ty(Ty::Int), vec![def("acc", int(0)), Stmt::Loop(Some(bin(BinOp::Lt, var("acc"), int(1))), vec![op_assign("acc", BinOp::Add, bin(BinOp::Add, var(&g(j)), int(1000)))]), Stmt::Expr(var("acc"))]));
+                    callv(&name, vec![])
+                }
+                Edge::InCalledFnNestedCall => {
+                    let inner = format!("ni{}{}", i, j);
+                    let outer = format!("no{}{}", i, j);
+                    helpers.push(top_fn(&inner, vec![], RetAnn::Ty(Ty::Int), vec![Stmt::Expr(var(&g(j)))]));
+                    helpers.push(top_fn(&outer, vec![], RetAnn::Ty(Ty::Int), vec![Stmt::Expr(bin(BinOp::Add, callv(&inner, vec![]), int(1)))]));
+                    callv(&outer, vec![])
+                }
+                Edge::ThroughFunctionAlias => {
+                    let name = format!("fa{}{}", i, j);
+                    let alias = format!("al{}{}", i, j);
+                    helpers.push(top_fn(&name, vec![], RetAnn::Ty(Ty::Int), vec![Stmt::Expr(var(&g(j)))]));
+                    helpers.push(Top::Def { name: alias.clone(), mutable: false, ty: None, value: var(&name) });
+                    callv(&alias, vec![])
+                }
+                Edge::InVariantPayload => Expr::Case(Box::new(Expr::Variant("V".into(), "A".into(), Some(Box::new(bin(BinOp::Add, var(&g(j)), int(2)))))), vec![CaseArm { variant: "A".into(), bind: Some("q".into()), body: vec![Stmt::Expr(var("q"))] }], Some(vec![Stmt::Expr(int(0))])),
+                Edge::InIndex => Expr::Index(Box::new(Expr::Tuple(vec![var(&g(j)), int(0)])), 0),
+                Edge::InLambdaCalledAtOnce => call(Expr::Paren(Box::new(lambda(vec![], RetAnn::Ty(Ty::Int), vec![Stmt::Expr(var(&g(j)))]))), vec![]),
             };
             init = bin(BinOp::Add, init, term);
         }
@@ -155,6 +226,18 @@ fn labelings(n: usize, max_edges: usize) -> Vec<Labeling> {
         }
     }
     rec(&pairs, 0, max_edges, &mut Vec::new(), n, &mut out);
+    // every wrapped read alone, forwards and backwards, and combined with one plain read that closes
+    // or does not close a cycle
+    for k in WRAPPED {
+        for (a, b) in &pairs {
+            out.push(Labeling { n, edges: vec![(*a, *b, k)] });
+            for (c, d) in &pairs {
+                if (c, d) != (a, b) && max_edges >= 2 {
+                    out.push(Labeling { n, edges: vec![(*a, *b, k), (*c, *d, Edge::Read)] });
+                }
+            }
+        }
+    }
     out
 }
 
@@ -263,7 +346,7 @@ pub fn run(run: &mut Run) {
     });
     run.stats = Stats::merge_all(accs);
     run.rule = "programs with 3 (thorough: also 4) mutable globals whose initialisers are related by up to k edges, each edge one of: read, read inside a called function, read inside a function that is only stored, assignment / compound assignment inside a called function, blob literal field; every permutation of the top-level statements (blob declaration, globals, start) x helper functions before / after; non-trivial = every labelling that is not inherently order-dependent; distinct by edge labelling".into();
-    run.bounds = json!({"globals": if thorough {"3 with <=3 edges, 4 with <=2 edges"} else {"3 with <=2 edges"}, "labelings": labs.len(), "edge_kinds": KINDS.iter().map(|k| format!("{:?}", k)).collect::<Vec<_>>()});
+    run.bounds = json!({"globals": if thorough {"3 with <=3 edges, 4 with <=2 edges"} else {"3 with <=2 edges"}, "labelings": labs.len(), "edge_kinds": KINDS.iter().chain(WRAPPED.iter()).map(|k| format!("{:?}", k)).collect::<Vec<_>>()});
     run.assumptions = vec![
         "reference: RefSylt under every order of the value globals; orders that read or assign an uninitialised global are invalid; if the valid orders disagree the program is inherently order-dependent and excluded; if no order is valid the initialisers are cyclic".into(),
         "a consistent rejection of a program that has a valid order (conservative dependency analysis) is accepted".into(),
